@@ -205,6 +205,11 @@ func c01Scenarios() []*GbnScenario {
 			sc.RandFault = nil
 			sc.RunFor = 200 * time.Second
 		}
+		if i%3 == 1 {
+			// the reading application polls with a deadline that expires inside messages
+			sc.RecvTimeout = []time.Duration{30 * time.Millisecond, 200 * time.Millisecond, 900 * time.Millisecond}[crng.Intn(3)]
+			sc.SendGap = [2]time.Duration{time.Duration(crng.Intn(300)) * time.Millisecond, time.Duration(crng.Intn(300)) * time.Millisecond}
+		}
 		scs = append(scs, sc)
 	}
 	return scs
